@@ -408,6 +408,22 @@ func Guarded(from *ssa.BasicBlock, sink ssa.Instruction, pass []Edge, nr NoRetur
 	if !InstrReachable(from, sink, cut, nr) {
 		return true, ""
 	}
+	// The block graph offers a way round the justifying edges; is one of those ways feasible? (branches on the
+	// same value go the same way, nil-ness learnt from an earlier test holds later — see paths.go)
+	hit := false
+	before := ExploreOverflow
+	ExploreOverflow = false
+	ExploreX(from, nil, nil, nr, cut, nil, func(in ssa.Instruction, st PState) bool {
+		if in == sink {
+			hit = true
+		}
+		return !hit
+	})
+	over := ExploreOverflow
+	ExploreOverflow = before || over
+	if !hit && !over {
+		return true, ""
+	}
 	return false, PathString(PathTo(from, sink.Block(), cut))
 }
 
